@@ -111,6 +111,7 @@ PROPS = {
     ),
     "C08": dict(
         components=[("tracker", 2000, 100000)],
+        parallel=8,
         trusted=[JSON_CODEC, "FBContext.SendMessage replaced by a recording context"],
         assumptions=["ranges well-formed (from <= to) and message keys parsable, as every caller in firebolt produces them; "
                      "ill-formed ranges and unparsable keys are compared model-vs-code only",
